@@ -260,6 +260,23 @@ def run_impl(driver, case):
                     break
         except Exception as ex:
             out["inplace"] = "raises %s" % type(ex).__name__
+    # in-place methods on a VIEW (a slice of the first axis, the transpose) write through to the tensor the view was taken from, as
+    # they do for plain torch tensors: after y = x[:1]; y.pow_(2) the first row of x is squared
+    if getattr(driver, "name", "") == "torch":
+        try:
+            for i, t in enumerate(case["inputs"]):
+                if not t["shape"] or t["shape"][0] < 1:
+                    continue
+                x = driver.make(t)
+                ref = x.tensor.clone()
+                y = x[:1]
+                y.pow_(2.0)
+                ref[:1] = ref[:1].pow(2.0)
+                if not driver.torch.equal(driver.torch.nan_to_num(x.tensor, nan=12345.0), driver.torch.nan_to_num(ref, nan=12345.0)):
+                    out["viewinplace"] = i
+                    break
+        except Exception as ex:
+            out["viewinplace"] = "raises %s" % type(ex).__name__
     # TensorFlow statistics in float32 on data whose mean is hundreds of times its spread (pixel coordinates): variance and
     # standard deviation of the valid elements, against a binary64 two-pass reference (a textbook-correct but cancellation-prone
     # formula is off by percents here, float32 rounding of a sound one by 1e-4 at most)
